@@ -16,7 +16,8 @@ import time
 ROOT = os.path.dirname(os.path.dirname(os.path.abspath(__file__)))
 COQ = os.path.join(ROOT, 'coq')
 BUILD = os.path.join(ROOT, 'build')
-EVIDENCE = os.path.join(ROOT, 'evidence')
+# seeded-change runs redirect their evidence (VERIF_EVIDENCE_DIR) so that the committed evidence is never clobbered
+EVIDENCE = os.environ.get('VERIF_EVIDENCE_DIR') or os.path.join(ROOT, 'evidence')
 REPLAY = os.path.join(EVIDENCE, 'replay')
 REPO = os.environ.get('VERIF_REPO', '/repo')
 PY = '/venv/bin/python'
